@@ -5,6 +5,14 @@ HERE = os.path.dirname(os.path.abspath(__file__))
 BASELINE = "cd /repo && /venv/bin/python -m pytest -ra -q -p no:cacheprovider --timeout=900 --continue-on-collection-errors"
 
 CLAIMED = {
+    'C07': dict(
+        design='4.7',
+        text='Kernel only (shape calculus of indexing). Deductive proof: function._takeslice selects exactly range(n)[s] for every axis length and every present/absent, positive/negative, '
+             'in- or out-of-range start/stop (unit step), never raising; numeric.normdim normalises or raises IndexError exactly when out of range. BOUNDED (rank <= 3, <= 3 basic index items, '
+             'symbolic lengths and slice bounds; labelled bounded): Array.__getitem__ produces NumPy\'s shape for every pattern of int/slice/ellipsis/newaxis and rejects exactly the patterns NumPy rejects.',
+        note='Outside: values at sample points, dtype promotion, arithmetic/reduction/einsum/linalg dispatch, index arrays, broadcasting, concatenate, reshape: the property is decided only for basic indexing shapes. '
+             'Trusted: Range(length)+start / numpy.take meaning, Python slice.indices as the NumPy rule.',
+        technique='contract-based deductive verification (ast->z3) of _takeslice/normdim; bounded pattern enumeration with symbolic lengths for __getitem__'),
     'C05': dict(
         design='4.5',
         text='Kernel only. Deductive proof (arrays of any length) of UniqueMask.evalf (mask[0] true, mask[i] <=> a[i] != a[i-1]) and UniqueInverse.evalf (for a permutation sorter: '
@@ -99,7 +107,7 @@ NOT_APPLICABLE = {
     'C02': 'whole-DAG faithful translation into generated numpy programs: no function-level postcondition carries it; would need a denotational semantics of ~150 node classes and of the generated code (DESIGN 4.2)',
     'C03': 'history/non-interference property of a program that exists only as a generated string; no per-function contract expresses it (DESIGN 4.3)',
 }
-PENDING = ['C04', 'C07', 'C08', 'C10', 'C16', 'C18', 'C19', 'C20']
+PENDING = ['C04', 'C08', 'C10', 'C16', 'C18', 'C19', 'C20']
 
 
 def main():
